@@ -195,12 +195,16 @@ def constructProgNoSeed : List Cmd :=
 
 /-- `PrimaiteGymEnv.reset(seed = arg)` -/
 def resetProg : List Cmd :=
-  [ .setGlob gRng .arg, .log (.glob gSimOutput), .setEnv eEpisode (.add (.env eEpisode) (.lit 1)),
+  [ .setGlob gRng .arg,
+    -- the old game's total reward is filed in `total_reward_per_episode` and the agent log is written: records for the user that no
+    -- later operation reads (Gen/IsolationReset: not in `laterReads`), hence modelled as output
+    .log (.add (.loc lState) (.glob gSimOutput)),
+    .setEnv eEpisode (.add (.env eEpisode) (.lit 1)),
     .setGlob gPcapLoggers (.lit 0) ] ++ buildGame
 
 /-- `reset()` without a seed -/
 def resetProgNoSeed : List Cmd :=
-  [ .log (.glob gSimOutput), .setEnv eEpisode (.add (.env eEpisode) (.lit 1)),
+  [ .log (.add (.loc lState) (.glob gSimOutput)), .setEnv eEpisode (.add (.env eEpisode) (.lit 1)),
     .setGlob gPcapLoggers (.lit 0) ] ++ buildGame
 
 /-- `PrimaiteGymEnv.step(arg)` as the code is: NICs consult `nmne_config`, the NIC observation consults `capture_nmne`,
